@@ -410,6 +410,70 @@ def streaming_format(text, data):
     return fmt[0], fmt[1], bounded, dobj
 
 
+def streamed_format(ret, data):
+    """A compress arm that feeds a compressor object piecewise: C.compress(<slice of data>) ... C.flush().
+    -> (container, window, verdict) with verdict 'partition' (every input octet is fed exactly once), 'overlap' (a known-wrong tail:
+    the last chunk is taken from the end by the remainder, which is the whole input again when the remainder is zero) or None
+    (fed pieces not understood); None when the value is not of this shape at all."""
+    if not isinstance(ret, Bytes):
+        return None
+    items = merge_consts(ret.items)
+    flat = []            # (compressor text, argument text, loop (var, coll) or None)
+    for it in items:
+        if it[0] == 'EACH' and len(it[3]) == 1 and it[3][0][0] == 'SYM':
+            flat.append((it[3][0][1], (it[1], it[2])))
+        elif it[0] == 'SYM':
+            flat.append((it[1], None))
+        else:
+            return None
+    if len(flat) < 2:
+        return None
+    comp = None
+    fed = []
+    for i, (text, loop) in enumerate(flat):
+        m = re.match(r'^((?:zlib\.compressobj|bz2\.BZ2Compressor)\((?:[^()]|\([^()]*\))*\))\.(compress|flush)\((.*)\)$', text)
+        if m is None or (comp is not None and m.group(1) != comp):
+            return None
+        comp = m.group(1)
+        if m.group(2) == 'flush':
+            if i != len(flat) - 1 or loop is not None:
+                return None
+        else:
+            fed.append((m.group(3), loop))
+    if not flat[-1][0].endswith('.flush()') or not fed:
+        return None
+    if comp.startswith('bz2.'):
+        fmt = ('bz2', 0)
+    else:
+        a = _call_args(comp, 'zlib.compressobj')
+        w = _wbits(a, 2)
+        fmt = None if w is None else ('raw', -w) if -15 <= w <= -9 else ('zlib', w) if 9 <= w <= 15 else None
+    if fmt is None:
+        return None
+    # which octets are fed
+    verdict = None
+    if fed == [(data, None)] or fed == [('bytes(%s)' % data, None)]:
+        verdict = 'partition'
+    elif len(fed) == 2 and fed[0][1] is not None and fed[1][1] is None:
+        (chunk, (v, coll)), (tail, _) = fed
+        mr = re.match(r'^range\(\(len\(%s\) // (\d+)\)\)$' % re.escape(data), coll)
+        mc = re.match(r'^SLICE\(%s;(.*);(.*)\)$' % re.escape(data), chunk)
+        mt = re.match(r'^SLICE\(%s;(.*);(.*)\)$' % re.escape(data), tail)
+        if mr and mc and mt:
+            B = mr.group(1)
+            blocks = lin_norm(mc.group(1)) in (lin_norm('(%s * %s)' % (v, B)), '(%s * %s)' % (v, B), '(%s * %s)' % (B, v)) and \
+                mc.group(2) in ('((%s + 1) * %s)' % (v, B), '(%s * (%s + 1))' % (B, v), lin_norm('((%s * %s) + %s)' % (v, B, B)))
+            n = '(len(%s) // %s)' % (data, B)
+            good_tail = mt.group(2) == '' and mt.group(1) in ('(%s * %s)' % (n, B), '(%s * %s)' % (B, n), lin_norm('(len(%s) - (len(%s) %% %s))' % (data, data, B)),
+                                                              '(len(%s) - (len(%s) %% %s))' % (data, data, B))
+            bad_tail = mt.group(2) == '' and mt.group(1) in ('-(len(%s) %% %s)' % (data, B), '(-(len(%s) %% %s))' % (data, B))
+            if blocks and good_tail:
+                verdict = 'partition'
+            elif blocks and bad_tail:
+                verdict = 'overlap'
+    return fmt[0], fmt[1], verdict
+
+
 def accepted_format(text, data):
     """(container, window bits) a decompress arm accepts for `data`; None when not modelled."""
     if text == data:
@@ -450,7 +514,7 @@ def compression_pairs(rep, prog):
             continue
         sides = []
         for f, fmt in ((fc, produced_format), (fd, accepted_format)):
-            outs = [s for s in Interp(prog, Scenario(inline=noinline)).run(f, self_val=enum_const(prog, 'CompressionAlgorithm', m)) if s.raised is None]
+            outs = [s for s in Interp(prog, Scenario(inline=noinline, extended=True)).run(f, self_val=enum_const(prog, 'CompressionAlgorithm', m)) if s.raised is None]
             texts = sorted({render(s.ret) for s in outs})
             if f is fd:
                 # the output may not be truncated silently: a slice of the result, or a max_length without a check that nothing is left
@@ -469,6 +533,19 @@ def compression_pairs(rep, prog):
                     mc = re.match(r'^SLICE\((.*);[^;]*;[^;]*\)$', t)
                     return mc.group(1) if mc and accepted_format(mc.group(1), data) is not None else t
                 texts = sorted({uncut(t) for t in texts})
+            if f is fc:
+                # a compressor object fed piecewise: the pieces must be the input, every octet exactly once
+                streamed = [(s, streamed_format(s.ret, f.params[1])) for s in outs]
+                if streamed and all(x is not None for _, x in streamed):
+                    for s, (cont, win, verdict) in streamed:
+                        if verdict is None:
+                            rep.error('C20.5', 'CompressionAlgorithm %s: pieces fed to the compressor not understood: %s' % (m, render(s.ret)[:200]))
+                        else:
+                            rep.check(verdict == 'partition', 'C20.5', 'CompressionAlgorithm.compress', '%s: %s' % (m, render(s.ret)[:300]),
+                                      'the compressor must be fed every input octet exactly once: the last chunk taken from the end by the remainder '
+                                      '(data[-rest:]) is the whole input again when the remainder is zero', where=fc.where, scenario=m)
+                    sides.append((texts, [(x[0], x[1]) for _, x in streamed][:1] if len({(x[0], x[1]) for _, x in streamed}) == 1 else [None]))
+                    continue
             sides.append((texts, [fmt(t, f.params[1]) for t in texts]))
         (ct, cf), (dt, df) = sides
         if len(cf) != 1 or len(df) != 1 or cf[0] is None or df[0] is None:
